@@ -23,7 +23,7 @@ fn dur_from_nanos(n: u128) -> Duration {
 
 fn interesting_u64(r: &mut Rng) -> u64 {
     match r.below(12) {
-        0 => 0,
+        0 | 11 => 0,
         1 => 1,
         2 => 2,
         3 => 3,
@@ -69,7 +69,26 @@ pub fn gen_case(r: &mut Rng) -> Case {
         6 => (r.next() >> 32) as u32 % (u32::MAX - 1),
         _ => r.below(70) as u32,
     };
-    let max = if r.chance(1, 2) { Some(interesting_dur(r)) } else { None };
+    let max = if r.chance(1, 2) {
+        if r.chance(1, 2) {
+            // maxima in a particular relation to the step
+            let n = step.as_nanos();
+            let m = match r.below(6) {
+                0 => n,
+                1 => n.saturating_sub(1),
+                2 => n / 2,
+                3 => n.saturating_mul(2),
+                4 => n.saturating_add(1),
+                _ => n.saturating_mul(r.range(1, 50) as u128),
+            };
+            let lim = Duration::MAX.as_nanos();
+            Some(dur_from_nanos(m.min(lim)))
+        } else {
+            Some(interesting_dur(r))
+        }
+    } else {
+        None
+    };
     let take = match r.below(4) {
         0 => r.below(5000) as u32,
         _ => r.below(130) as u32,
